@@ -160,7 +160,7 @@ def main(spec, argv):
             cpath = os.path.join(core.VERIF, 'corpus', prop)
             if os.path.isdir(cpath):
                 for f in sorted(os.listdir(cpath)):
-                    if f.endswith('.' + st['component']) or f.endswith('.txt') and st.get('corpus', True):
+                    if f.endswith('.' + st['component']) or (f.endswith('.txt') and st.get('corpus', True)):
                         corpus += [l for l in open(os.path.join(cpath, f)).read().split('\n') if l.strip() and not l.startswith('#')]
             n = st['quick'] if tier == 'quick' else st['thorough']
             core.harness(ctx['bins'][st['config']], [st['component'], 'gen', '--seed', str(seed), '--count', str(n), '--out', cdir] + st.get('gen_extra', []), timeout=1200)
